@@ -176,17 +176,21 @@ func scenario(s *scen) *vsched.Scenario {
 func scenarios(tier string) []scen {
 	var out []scen
 	P := 2
-	scripts := []string{"P", "PR", "PRP", "RP", "PP"}
+	scripts := []string{"P", "PR", "PRP", "RP", "PP", "PPR"}
 	if tier == "thorough" {
 		P = 3
-		scripts = append(scripts, "PRPR", "PPR", "RPR")
+		scripts = append(scripts, "PRPR", "RPR", "PPRR")
 	}
 	for _, sc := range scripts {
-		out = append(out, scen{Script: sc, Workers: 3, P: P})
-		for e := 0; e < 3; e++ {
-			out = append(out, scen{Script: sc, Exits: []int{e}, Workers: 3, P: P})
+		p1 := P
+		if tier == "thorough" && len(sc) > 2 {
+			p1 = 2 // three preemptions on a three-call script with an exit run beyond the wall-clock cap
 		}
-		out = append(out, scen{Script: sc, Exits: []int{0, 2}, Workers: 3, P: P})
+		out = append(out, scen{Script: sc, Workers: 3, P: p1})
+		for e := 0; e < 3; e++ {
+			out = append(out, scen{Script: sc, Exits: []int{e}, Workers: 3, P: p1})
+		}
+		out = append(out, scen{Script: sc, Exits: []int{0, 2}, Workers: 3, P: 2})
 	}
 	return out
 }
